@@ -2,74 +2,74 @@ import Polyseed.Model.Types
 /-!
 # `lang.c`: the four comparators, `get_comparer`, `lang_search`, word lookup, phrase decoding
 
-Plain `char` signedness is the explicit parameter `sgn` (`true` = signed, as on
-x86-64).  A C string is the list of its bytes; reading at the end of the list
-reads the terminator `0`.
+A C string is the list of its bytes; reading at the end of the list reads the terminator `0`.
+Bytes are compared as `compare_char` does: rank `(unsigned char)c ^ 0x80`, i.e. non-ASCII bytes
+before NUL before ASCII, independent of the signedness of plain `char`; `IS_NON_ASCII(c)` is `c >= 0x80`.
 -/
 namespace Polyseed
 
-/-- plain `char` value of a byte as a C `int`. -/
-def sc (sgn : Bool) (b : Nat) : Int := if sgn && decide (128 ≤ b) then (b : Int) - 256 else (b : Int)
+/-- the rank `compare_char` orders bytes by: `(unsigned char)c ^ 0x80` -/
+def sc (b : Nat) : Int := if 128 ≤ b then (b : Int) - 128 else (b : Int) + 128
 
-/-- `c < 0` for a plain `char` holding byte `b`. -/
-def isNeg (sgn : Bool) (b : Nat) : Bool := sgn && decide (128 ≤ b)
+/-- `IS_NON_ASCII(c)` -/
+def isNeg (b : Nat) : Bool := decide (128 ≤ b)
 
-/-- `(*key > *elm) - (*key < *elm)`. -/
-def sgnCmp (sgn : Bool) (a b : Nat) : Int :=
-  if sc sgn a < sc sgn b then -1 else if sc sgn b < sc sgn a then 1 else 0
+/-- `compare_char`. -/
+def sgnCmp (a b : Nat) : Int :=
+  if sc a < sc b then -1 else if sc b < sc a then 1 else 0
 
 /-- `*p` for a string `p`. -/
 def hd (s : List Nat) : Nat := s.headD 0
 
 /-- `compare_str`. -/
-def cmpStr (sgn : Bool) : List Nat → List Nat → Int
-  | [], e => sgnCmp sgn 0 (hd e)
-  | k :: _, [] => sgnCmp sgn k 0
-  | k :: ks, e :: es => if k = e then cmpStr sgn ks es else sgnCmp sgn k e
+def cmpStr : List Nat → List Nat → Int
+  | [], e => sgnCmp 0 (hd e)
+  | k :: _, [] => sgnCmp k 0
+  | k :: ks, e :: es => if k = e then cmpStr ks es else sgnCmp k e
 
 /-- `compare_prefix(key, elm, n)`; `i` is the loop counter (starts at 1). -/
-def cmpPrefix (sgn : Bool) (n : Nat) : Nat → List Nat → List Nat → Int
-  | _, [], e => sgnCmp sgn 0 (hd e)
+def cmpPrefix (n : Nat) : Nat → List Nat → List Nat → Int
+  | _, [], e => sgnCmp 0 (hd e)
   | i, k :: ks, e =>
-    if n ≤ i ∧ ks = [] then sgnCmp sgn k (hd e)
+    if n ≤ i ∧ ks = [] then sgnCmp k (hd e)
     else match e with
-      | [] => sgnCmp sgn k 0
-      | x :: es => if k = x then cmpPrefix sgn n (i + 1) ks es else sgnCmp sgn k x
+      | [] => sgnCmp k 0
+      | x :: es => if k = x then cmpPrefix n (i + 1) ks es else sgnCmp k x
 
 /-- `while (*p < 0) ++p;` -/
-def skipNeg (sgn : Bool) : List Nat → List Nat
+def skipNeg : List Nat → List Nat
   | [] => []
-  | b :: bs => if isNeg sgn b then skipNeg sgn bs else b :: bs
+  | b :: bs => if isNeg b then skipNeg bs else b :: bs
 
 /-- `compare_str_noaccent`. -/
-def cmpStrNoaccent (sgn : Bool) : List Nat → List Nat → Int
-  | [], elm => sgnCmp sgn 0 (hd (skipNeg sgn elm))
+def cmpStrNoaccent : List Nat → List Nat → Int
+  | [], elm => sgnCmp 0 (hd (skipNeg elm))
   | k :: ks, elm =>
-    if isNeg sgn k then cmpStrNoaccent sgn ks elm
-    else match skipNeg sgn elm with
-      | [] => sgnCmp sgn k 0
-      | e :: es => if k = e then cmpStrNoaccent sgn ks es else sgnCmp sgn k e
+    if isNeg k then cmpStrNoaccent ks elm
+    else match skipNeg elm with
+      | [] => sgnCmp k 0
+      | e :: es => if k = e then cmpStrNoaccent ks es else sgnCmp k e
 
-/-- `compare_prefix_noaccent(key, elm, n)`; note the early exit looks at the raw next byte `key[1]`. -/
-def cmpPrefixNoaccent (sgn : Bool) (n : Nat) : Nat → List Nat → List Nat → Int
-  | _, [], elm => sgnCmp sgn 0 (hd (skipNeg sgn elm))
+/-- `compare_prefix_noaccent(key, elm, n)`; the early exit fires when only non-ASCII bytes follow the current letter. -/
+def cmpPrefixNoaccent (n : Nat) : Nat → List Nat → List Nat → Int
+  | _, [], elm => sgnCmp 0 (hd (skipNeg elm))
   | i, k :: ks, elm =>
-    if isNeg sgn k then cmpPrefixNoaccent sgn n i ks elm
+    if isNeg k then cmpPrefixNoaccent n i ks elm
     else
-      let e' := skipNeg sgn elm
-      if n ≤ i ∧ ks = [] then sgnCmp sgn k (hd e')
+      let e' := skipNeg elm
+      if n ≤ i ∧ skipNeg ks = [] then sgnCmp k (hd e')
       else match e' with
-        | [] => sgnCmp sgn k 0
-        | e :: es => if k = e then cmpPrefixNoaccent sgn n (i + 1) ks es else sgnCmp sgn k e
+        | [] => sgnCmp k 0
+        | e :: es => if k = e then cmpPrefixNoaccent n (i + 1) ks es else sgnCmp k e
 
 def NUM_CHARS_PREFIX : Nat := 4
 
 /-- `get_comparer`: comparator as a function `key → elm → int`. -/
-def getComparer (sgn : Bool) (L : Lang) : List Nat → List Nat → Int :=
+def getComparer (L : Lang) : List Nat → List Nat → Int :=
   if L.hasPrefix then
-    if L.hasAccents then cmpPrefixNoaccent sgn NUM_CHARS_PREFIX 1 else cmpPrefix sgn NUM_CHARS_PREFIX 1
+    if L.hasAccents then cmpPrefixNoaccent NUM_CHARS_PREFIX 1 else cmpPrefix NUM_CHARS_PREFIX 1
   else
-    if L.hasAccents then cmpStrNoaccent sgn else cmpStr sgn
+    if L.hasAccents then cmpStrNoaccent else cmpStr
 
 /-- glibc `bsearch` (the inline loop of `<bits/stdlib-bsearch.h>`); `c` compares the key with an element. -/
 def bsearchAux (c : α → Int) (ws : Array α) : Nat → Nat → Nat → Option Nat
@@ -98,22 +98,22 @@ def langSearch (L : Lang) (word : List Nat) (cmp : List Nat → List Nat → Int
   else linearSearch (cmp word) L.words.toList 0
 
 /-- `polyseed_lang_find_word` (`none` = -1). -/
-def findWord (sgn : Bool) (L : Lang) (word : List Nat) : Option Nat :=
-  langSearch L word (getComparer sgn L)
+def findWord (L : Lang) (word : List Nat) : Option Nat :=
+  langSearch L word (getComparer L)
 
 /-- the inner `for (wi ...)` loop: all words found, or failure. -/
-def findAll (sgn : Bool) (L : Lang) : List (List Nat) → Option (List Nat)
+def findAll (L : Lang) : List (List Nat) → Option (List Nat)
   | [] => some []
   | t :: ts =>
-    match findWord sgn L t with
+    match findWord L t with
     | none => none
-    | some i => match findAll sgn L ts with
+    | some i => match findAll L ts with
       | none => none
       | some is => some (i :: is)
 
 /-- `polyseed_phrase_decode_explicit`. -/
-def phraseDecodeExplicit (sgn : Bool) (L : Lang) (toks : List (List Nat)) : Status × List Nat :=
-  match findAll sgn L toks with
+def phraseDecodeExplicit (L : Lang) (toks : List (List Nat)) : Status × List Nat :=
+  match findAll L toks with
   | none => (.lang, [])
   | some idx => (.ok, idx)
 
@@ -128,19 +128,19 @@ structure Detect where
 deriving DecidableEq, Repr
 
 /-- the `for (li ...)` loop with the `have_lang` accumulator. -/
-def detectAux (sgn : Bool) (toks : List (List Nat)) : List Lang → Nat → Option (Nat × List Nat) → Detect
+def detectAux (toks : List (List Nat)) : List Lang → Nat → Option (Nat × List Nat) → Detect
   | [], _, none => ⟨.lang, [], none⟩
   | [], _, some (l, idx) => ⟨.ok, idx, some l⟩
   | L :: Ls, li, acc =>
-    match findAll sgn L toks with
-    | none => detectAux sgn toks Ls (li + 1) acc
+    match findAll L toks with
+    | none => detectAux toks Ls (li + 1) acc
     | some idx =>
       match acc with
       | some (l0, idx0) => ⟨.multLang, idx0, some l0⟩
-      | none => detectAux sgn toks Ls (li + 1) (some (li, idx))
+      | none => detectAux toks Ls (li + 1) (some (li, idx))
 
 /-- `polyseed_phrase_decode`. -/
-def phraseDecode (sgn : Bool) (langs : List Lang) (toks : List (List Nat)) : Detect :=
-  detectAux sgn toks langs 0 none
+def phraseDecode (langs : List Lang) (toks : List (List Nat)) : Detect :=
+  detectAux toks langs 0 none
 
 end Polyseed
